@@ -43,6 +43,10 @@ theorem adv_append (p : Pos) (a b : Text) : adv p (a ++ b) = adv (adv p a) b := 
 theorem evsText_append (a b : List Ev) : evsText (a ++ b) = evsText a ++ evsText b := by
   simp [evsText]
 
+theorem evsText_nil : evsText [] = [] := rfl
+
+theorem evsText_singleton (e : Ev) : evsText [e] = e.text := by simp [evsText]
+
 theorem evsText_cons (e : Ev) (es : List Ev) : evsText (e :: es) = e.text ++ evsText es := by
   simp [evsText]
 
